@@ -296,3 +296,133 @@ def G34_scratch_reset_on_every_path(repo, clause, scope=ALL_LIB):
                                   slot="scratch-reset:%s:%s" % (fn.qualname, nm)))
     obs.append(Ob("G34", clause, fns[0], fns[0].node, True, "%d functions in scope, %d loop-carried scratch containers inspected" % (len(fns), n), construct="scratch reset inventory", slot="inventory"))
     return obs
+
+
+def G35_hidden_instance_state(repo, clause):
+    """Every piece of state of an Atoms object is created by the constructor (that is what copy(), subsets, extend and the writers know about).  A method other than
+    __init__ that stores an attribute the constructor never assigns - `self._x = ...`, `setattr(self, ...)`, `self.__dict__[...]`, `self.__dict__.setdefault(...)`,
+    `vars(self)` - and some method that reads it back makes later results depend on the HISTORY of calls on that object (a memo of the last fragment added, a table of
+    offsets already handed out), which survives in-place edits of the objects it was computed from and is carried along by copy().  Judged on the raw source of
+    mofun/atoms.py so that freshly added methods are seen as well."""
+    obs = []
+    m = repo.modules.get("mofun.atoms")
+    if m is None:
+        raise AnalysisError("G35: module mofun.atoms not found")
+    raw = ast.parse(m.src)
+    n_cls = n_store = 0
+    for c in [x for x in raw.body if isinstance(x, ast.ClassDef)]:
+        n_cls += 1
+        init_attrs, stores, loads = set(), [], set()
+        for g in [g for g in c.body if isinstance(g, ast.FunctionDef)]:
+            is_setter = g.name == "__setattr__" or any((dotted(d) or "").endswith(".setter") for d in g.decorator_list)
+            for x in ast.walk(g):
+                tg = x.targets if isinstance(x, ast.Assign) else ([x.target] if isinstance(x, (ast.AugAssign, ast.AnnAssign)) else [])
+                for t_ in tg:
+                    for y in ([t_] + ([e for e in t_.elts] if isinstance(t_, (ast.Tuple, ast.List)) else [])):
+                        if isinstance(y, ast.Attribute) and isinstance(y.value, ast.Name) and y.value.id == "self":
+                            if g.name == "__init__":
+                                init_attrs.add(y.attr)
+                            elif not is_setter:
+                                stores.append((g, x, y.attr))
+                if isinstance(x, ast.Attribute) and isinstance(x.value, ast.Name) and x.value.id == "self" and isinstance(x.ctx, ast.Load):
+                    loads.add(x.attr)
+                    if x.attr == "__dict__" and g.name not in ("__getstate__", "__setstate__", "__repr__"):
+                        stores.append((g, x, "__dict__"))
+                if isinstance(x, ast.Call) and isinstance(x.func, ast.Name) and x.func.id in ("setattr", "vars") and x.args and isinstance(x.args[0], ast.Name) and x.args[0].id == "self":
+                    nm = const_value(x.args[1]) if x.func.id == "setattr" and len(x.args) > 1 else None
+                    if g.name != "__init__":
+                        stores.append((g, x, nm if isinstance(nm, str) else "<%s(self)>" % x.func.id))
+                    elif isinstance(nm, str):
+                        init_attrs.add(nm)
+                if isinstance(x, ast.Call) and isinstance(x.func, ast.Name) and x.func.id == "getattr" and len(x.args) >= 2 and isinstance(x.args[0], ast.Name) and x.args[0].id == "self" \
+                        and isinstance(const_value(x.args[1]), str):
+                    loads.add(const_value(x.args[1]))
+        props = {g.name for g in c.body if isinstance(g, ast.FunctionDef) and any((dotted(d) or "") == "property" or (dotted(d) or "").endswith(".setter") for d in g.decorator_list)}
+        seen = set()
+        for g, x, attr in stores:
+            if attr in init_attrs or attr in props or (g.name, attr) in seen:
+                continue
+            seen.add((g.name, attr))
+            n_store += 1
+            read_back = attr in loads or attr.startswith("<") or attr == "__dict__"
+            if read_back:
+                obs.append(Ob("G35", clause, FileObj(m.relpath, "%s.%s" % (c.name, g.name)), x, False,
+                              "%s.%s keeps state in `%s`, which the constructor never creates, and it is read back later: what the method does now depends on EARLIER calls on this object "
+                              "(a remembered fragment / offsets / flag), survives in-place edits of the objects it was derived from, and travels with copy()" % (c.name, g.name, attr),
+                              slot="hidden-state:%s.%s:%s" % (c.name, g.name, attr), positive="robust"))
+    obs.append(Ob("G35", clause, FileObj(m.relpath, "mofun.atoms"), raw.body[0], True, "%d classes in mofun/atoms.py, %d stores of attributes unknown to the constructor outside __init__ inspected" % (n_cls, n_store),
+                  construct="hidden state inventory", slot="inventory"))
+    return obs
+
+
+def G33_effect_before_validation(repo, clause, funcs=("Atoms.save", "Atoms.load", "Atoms.load_cml", "Atoms.load_lmpdat", "Atoms.load_p1_cif", "Atoms.save_lmpdat", "Atoms.save_p1_cif")):
+    """Fault discipline of the readers / writers:
+    (a) a refusal that depends only on the ARGUMENTS (`raise ... "Unsupported filetype"`) comes before the file is opened for writing: open(path, 'w') truncates the
+        existing file, so a raise that is only reachable after (or from inside) the `with <open for writing>` block destroys the caller's data while refusing the call;
+    (b) a routine that was handed an open file object does not close it: `with f:` / `f.close()` on the parameter itself ends the caller's handle (the same open file can
+        no longer be rewound and read again, or written further)."""
+    obs = []
+    n_a = n_b = 0
+    for q in funcs:
+        fn = repo.maybe_fn(q)
+        if fn is None:
+            continue
+        params = [p for p in fn.params if p not in ("self", "cls")]
+        # (a)
+        wopen = []
+        for w in [x for x in fn.own_nodes() if isinstance(x, ast.With)]:
+            for it in w.items:
+                ce = it.context_expr
+                if isinstance(ce, ast.Call) and call_name(ce) in ("use_or_open", "open"):
+                    mode = None
+                    for k in ce.keywords:
+                        if k.arg == "mode":
+                            mode = const_value(k.value)
+                    if mode is None and call_name(ce) == "open" and len(ce.args) > 1:
+                        mode = const_value(ce.args[1])
+                    if mode is None and call_name(ce) == "use_or_open" and len(ce.args) > 2:
+                        mode = const_value(ce.args[2])
+                    if isinstance(mode, str) and ("w" in mode or "a" in mode or "+" in mode):
+                        wopen.append(w)
+        if wopen:
+            for r in [x for x in fn.own_nodes() if isinstance(x, ast.Raise)]:
+                n_a += 1
+                # does the refusal depend only on parameters / locals derived from them before the open?
+                gs = norm_guards(fn, r)
+                reads_written = any(isinstance(y, ast.Name) and any(isinstance(it.optional_vars, ast.Name) and it.optional_vars.id == y.id for w in wopen for it in w.items)
+                                    for t, pol, k in gs for y in ast.walk(t))
+                after = [w for w in wopen if w in list(fn.ancestors(r)) or fn.cfg.reaches(w, fn.stmt_of(r))]
+                before_all = not after
+                first = wopen[0]
+                dominated = any(fn.cfg.dominates(w, fn.stmt_of(r)) or w in list(fn.ancestors(r)) for w in wopen)
+                ok = before_all or reads_written or not dominated
+                obs.append(Ob("G33", clause, fn, r, ok,
+                              "refusal `%s` in %s %s" % (ast.unparse(r)[:50], fn.qualname, "is decided before any file is opened for writing" if before_all else (
+                                  "depends on what was written" if reads_written else ("is not reached through the opened file on every path" if not dominated else
+                                  "is reached only AFTER `%s` has opened (= truncated) the target file: the call is refused but the caller's existing file is already empty"
+                                  % ast.unparse(first.items[0].context_expr)[:50]))),
+                              slot="refuse-before-open:%s" % fn.qualname, positive="robust"))
+        # (b)
+        for w in [x for x in fn.own_nodes() if isinstance(x, ast.With)]:
+            for it in w.items:
+                ce = it.context_expr
+                if isinstance(ce, ast.Name) and ce.id in params:
+                    n_b += 1
+                    # the parameter may have been re-bound to a file this routine opened itself on SOME path only: every reaching definition must be an open()
+                    defs = fn.rd.defs_at(w, ce.id) if hasattr(fn.rd, "defs_at") else []
+                    own = bool(defs) and all(isinstance(d, ast.Assign) and isinstance(d.value, ast.Call) and call_name(d.value) == "open" for d in defs)
+                    obs.append(Ob("G33", clause, fn, w, own,
+                                  "`with %s:` in %s %s" % (ce.id, fn.qualname, "closes a file this routine opened itself on every path" if own else
+                                                           "closes the object the CALLER passed in (on the path where `%s` is still the caller's open file): the caller cannot rewind and "
+                                                           "read it again, or go on writing to it" % ce.id),
+                                  slot="closes-callers-handle:%s" % fn.qualname, positive="robust"))
+        for c in [x for x in fn.own_nodes() if isinstance(x, ast.Call) and isinstance(x.func, ast.Attribute) and x.func.attr == "close"
+                  and isinstance(x.func.value, ast.Name) and x.func.value.id in params]:
+            n_b += 1
+            defs = fn.rd.defs_at(fn.stmt_of(c), c.func.value.id)
+            own = bool(defs) and all(isinstance(d, ast.Assign) and isinstance(d.value, ast.Call) and call_name(d.value) == "open" for d in defs)
+            obs.append(Ob("G33", clause, fn, c, own, "`%s` in %s %s" % (ast.unparse(c), fn.qualname, "closes a file opened here" if own else "closes the caller's file object"),
+                          slot="closes-callers-handle:%s" % fn.qualname, positive="robust"))
+    f0 = repo.maybe_fn(funcs[0]) or repo.all_fns()[0]
+    obs.append(Ob("G33", clause, f0, f0.node, True, "%d refusals beside a file opened for writing, %d closes of parameter objects inspected" % (n_a, n_b), construct="fault discipline inventory", slot="inventory"))
+    return obs
